@@ -110,6 +110,10 @@ def run(tier, seed, replay):
             elif res_ is None:
                 rep.count("out_of_model")
                 continue
+            elif res_.get("solo") == ["BUDGET"] or (res_.get("deadlock") and res_.get("budget")):
+                # a budget of the harness (wall clock, process heap) ended runs of this case: no verdict
+                rep.count("out_of_model")
+                continue
             elif res_.get("deadlock"):
                 what = "deadlock (goroutines did not finish within the watchdog)"
             elif res_.get("diverged"):
